@@ -280,3 +280,16 @@ func TestVerifWitness_C17_delimited_tokens_cover_delimiters(t *testing.T) {
 	}
 	fmt.Println("WITNESS-HOLDS")
 }
+
+// C08 server.extractSymbols#call[server.astRangeToProtocol].requires.1: a commodity directive without a symbol
+// ("commodity 1,000.00") has no symbol range; listing it produced a symbol with an empty name at 4294967295:4294967295.
+func TestVerifWitness_C08_symbol_of_symbolless_commodity(t *testing.T) {
+	j, _ := parser.Parse("commodity 1,000.00\n2024-01-01 x\n    assets:a  1\n    assets:b\n")
+	for _, s := range extractSymbols(j, "file:///w.journal", "") {
+		if s.Name == "" || s.Location.Range.Start.Line > 3 || s.Location.Range.End.Line > 3 {
+			fmt.Printf("WITNESS-FAILS symbol %q at %v in a document of 4 lines\n", s.Name, s.Location.Range)
+			return
+		}
+	}
+	fmt.Println("WITNESS-HOLDS")
+}
